@@ -272,6 +272,28 @@ class Adapter:
                         sh[k] = v
                 if used:
                     variants.append(('shorthand', dict(d, assets=sh)))
+                # an association field with one member may be written as a bare id instead of a list; ids may be strings
+                scal = []
+                used2 = False
+                for entry in d.get('associations', []):
+                    e2 = {}
+                    for k, v in entry.items():
+                        if k == 'extras' or not isinstance(v, dict):
+                            e2[k] = v
+                            continue
+                        e2[k] = {}
+                        for f, ids in v.items():
+                            if isinstance(ids, list) and len(ids) == 1:
+                                e2[k][f] = ids[0]
+                                used2 = True
+                            elif isinstance(ids, list):
+                                e2[k][f] = [str(i) for i in ids]
+                                used2 = True
+                            else:
+                                e2[k][f] = ids
+                    scal.append(e2)
+                if used2:
+                    variants.append(('scalar_or_string_member_ids', dict(d, associations=scal)))
                 for vn, dv in variants:
                     try:
                         m3 = Model._from_dict(copy.deepcopy(dv), ctx.factory)
